@@ -1,3 +1,647 @@
 import CircuitModel.CircuitMid
 namespace CM
+section
+variable {σo σc : Type} (O : OpenerI σo) (C : CloserI σc)
+
+/-! ### no reconfiguration: the extended model is the model -/
+
+theorem cmid_classifyAt_eq (s : St σo σc) (ctx : CallerCtx) (sc : Script) (ret : Option ErrV) (start : Int) :
+    classifyAt O C s ctx sc ret start s.1.cfg.timeout = classify O C s ctx sc ret start := by
+  rfl
+
+theorem cmid_runStepMid_none (s : St σo σc) (ctx : CallerCtx) (run : Option Script) :
+    runStepMid O C s ctx run none = runStep O C s ctx run := by
+  cases run with
+  | none => rfl
+  | some sc => rfl
+
+theorem cmid_executeMid_none (c : Circ σo σc) (ctx : CallerCtx) (run fb : Option Script) :
+    executeMid O C c ctx run fb none = execute O C c ctx run fb := by
+  cases run <;> rfl
+
+/-! ### changing only the timeout commutes with everything that does not read it -/
+
+def cmid_setTo (t' : Int) (s : St σo σc) : St σo σc :=
+  ({ s.1 with cfg := { s.1.cfg with timeout := t' } }, s.2)
+
+theorem cmid_setTo_now (t' : Int) (s : St σo σc) :
+    now (cmid_setTo t' s) = ((now s).1, cmid_setTo t' (now s).2) := rfl
+
+theorem cmid_setTo_emitRun (t' : Int) (s : St σo σc) (k : Kind) (t d : Int) :
+    emitRun O C (cmid_setTo t' s) k t d = cmid_setTo t' (emitRun O C s k t d) := rfl
+
+theorem cmid_setTo_emitFb (t' : Int) (s : St σo σc) (k : FbKind) (t d : Int) :
+    emitFb (cmid_setTo t' s) k t d = cmid_setTo t' (emitFb s k t d) := rfl
+
+theorem cmid_setTo_isOpenEff (t' : Int) (s : St σo σc) :
+    isOpenEff (cmid_setTo t' s).1 = isOpenEff s.1 := rfl
+
+theorem cmid_setTo_openCircuit (t' : Int) (s : St σo σc) (t : Int) :
+    openCircuit O C (cmid_setTo t' s) t = cmid_setTo t' (openCircuit O C s t) := by
+  unfold openCircuit
+  rw [cmid_setTo_isOpenEff]
+  show (if s.1.cfg.forcedClosed = true then _ else _) = _
+  split
+  · rfl
+  · split <;> rfl
+
+theorem cmid_setTo_attemptToOpen (t' : Int) (s : St σo σc) (t : Int) :
+    attemptToOpen O C (cmid_setTo t' s) t = cmid_setTo t' (attemptToOpen O C s t) := by
+  unfold attemptToOpen
+  rw [cmid_setTo_isOpenEff]
+  show (if s.1.cfg.forcedClosed = true then _ else _) = _
+  split
+  · rfl
+  · split
+    · rfl
+    · have e : (cmid_setTo t' s).1.opener = s.1.opener := rfl
+      rw [e]
+      generalize O.shouldOpen s.1.opener t = p
+      obtain ⟨o, ans⟩ := p
+      cases ans
+      · rfl
+      · exact cmid_setTo_openCircuit O C t' ({ s.1 with opener := o }, s.2) t
+
+theorem cmid_setTo_closeCircuit (t' : Int) (s : St σo σc) (t : Int) (force : Bool) :
+    closeCircuit O C (cmid_setTo t' s) t force = cmid_setTo t' (closeCircuit O C s t force) := by
+  unfold closeCircuit
+  rw [cmid_setTo_isOpenEff]
+  split
+  · rfl
+  · show (if s.1.cfg.forceOpen = true then _ else _) = _
+    split
+    · rfl
+    · cases force
+      · have e : (cmid_setTo t' s).1.closer = s.1.closer := rfl
+        rw [e]
+        generalize C.shouldClose s.1.closer t = p
+        obtain ⟨c, a⟩ := p
+        cases a <;> rfl
+      · rfl
+
+theorem cmid_setTo_allowNewRun (t' : Int) (s : St σo σc) (t : Int) :
+    allowNewRun C (cmid_setTo t' s) t = (cmid_setTo t' (allowNewRun C s t).1, (allowNewRun C s t).2) := by
+  unfold allowNewRun
+  rw [cmid_setTo_isOpenEff]
+  split
+  · rfl
+  · show (if s.1.cfg.forceOpen = true then _ else _) = _
+    split
+    · rfl
+    · have e : (cmid_setTo t' s).1.closer = s.1.closer := rfl
+      rw [e]
+      generalize C.allow s.1.closer t = p
+      obtain ⟨c, a⟩ := p
+      rfl
+
+theorem cmid_setTo_ii (t' : Int) (s : St σo σc) :
+    (cmid_setTo t' s).1.cfg.ignoreInterrupts = s.1.cfg.ignoreInterrupts := rfl
+theorem cmid_setTo_iei (t' : Int) (s : St σo σc) : (cmid_setTo t' s).1.cfg.iei = s.1.cfg.iei := rfl
+
+/-- the classification chain after the two clock readings -/
+def cmid_tail (s : St σo σc) (ctx : CallerCtx) (sc : Script) (ret : Option ErrV) (start toAtStart doneT total : Int) :
+    St σo σc :=
+  if (match ret with | some e => e.isBad | none => false) then emitRun O C s .badRequest doneT total
+  else if toAtStart > 0 ∧ start + toAtStart < doneT then
+    let s := emitRun O C s .timeout doneT total
+    if !isOpenEff s.1 then attemptToOpen O C s doneT else s
+  else
+    let callerErr := ctxErrAfter ctx sc
+    if ret.isSome && callerErr.isSome && !s.1.cfg.ignoreInterrupts &&
+        (match callerErr with | some e => s.1.cfg.iei.verdict e | none => false) then
+      emitRun O C s .interrupt doneT total
+    else if ret.isSome then
+      let s := emitRun O C s .failure doneT total
+      if !isOpenEff s.1 then attemptToOpen O C s doneT else s
+    else
+      let s := emitRun O C s .success doneT total
+      if isOpenEff s.1 then closeCircuit O C s doneT false else s
+
+theorem cmid_classifyAt_tail (s : St σo σc) (ctx : CallerCtx) (sc : Script) (ret : Option ErrV) (start toAtStart : Int) :
+    classifyAt O C s ctx sc ret start toAtStart =
+      cmid_tail O C (now (now s).2).2 ctx sc ret start toAtStart (now (now s).2).1 ((now s).1 - start) := rfl
+
+theorem cmid_setTo_tail (t' : Int) (s : St σo σc) (ctx : CallerCtx) (sc : Script) (ret : Option ErrV)
+    (start toAtStart doneT total : Int) :
+    cmid_tail O C (cmid_setTo t' s) ctx sc ret start toAtStart doneT total =
+      cmid_setTo t' (cmid_tail O C s ctx sc ret start toAtStart doneT total) := by
+  unfold cmid_tail
+  simp only [cmid_setTo_ii, cmid_setTo_iei, cmid_setTo_emitRun, cmid_setTo_isOpenEff, cmid_setTo_attemptToOpen,
+    cmid_setTo_closeCircuit, apply_ite (cmid_setTo t')]
+
+theorem cmid_setTo_classifyAt (t' : Int) (s : St σo σc) (ctx : CallerCtx) (sc : Script) (ret : Option ErrV)
+    (start toAtStart : Int) :
+    classifyAt O C (cmid_setTo t' s) ctx sc ret start toAtStart =
+      cmid_setTo t' (classifyAt O C s ctx sc ret start toAtStart) := by
+  rw [cmid_classifyAt_tail, cmid_classifyAt_tail]
+  exact cmid_setTo_tail O C t' (now (now s).2).2 ctx sc ret start toAtStart (now (now s).2).1 ((now s).1 - start)
+
+/-! ### the fallback in stages -/
+
+/-- the fallback refused for concurrency (its slot taken and given back) -/
+def cmid_fbReject (s : St σo σc) : St σo σc :=
+  let s2 := emitFb (now s).2 .reject (now s).1 0
+  ({ s2.1 with concFb := s2.1.concFb - 1 }, s2.2)
+
+/-- the fallback once let in (its concurrency slot taken); `seen` = the run function was invoked -/
+def cmid_fbBody (s : St σo σc) (seen : Bool) (ctx : CallerCtx) (runSc : Option Script) (err : ErrV) (sc : Script) :
+    St σo σc × Res :=
+  let (start, s) := now s
+  let s : St σo σc := ({ s.1 with clock := s.1.clock + sc.adv }, { s.2 with fbArg := some err, fbSameCtx := true })
+  match sc.act with
+  | .panic v => (({ s.1 with concFb := s.1.concFb - 1 }, s.2), .panic v)
+  | _ =>
+    let callerErr := match runSc with
+      | some r => if seen then ctxErrAfter ctx r else ctx.err
+      | none => ctx.err
+    let callerErr := match callerErr with | some e => some e | none => if sc.cancelCaller then some .canceled else none
+    let r := actValue sc callerErr
+    let (endT, s) := now s
+    let total := endT - start
+    let s := match r with
+      | some _ => emitFb s .failure start total
+      | none => emitFb s .success start total
+    (({ s.1 with concFb := s.1.concFb - 1 }, s.2), .ret r)
+
+theorem cmid_fallbackStep_some (s : St σo σc) (ctx : CallerCtx) (runSc : Option Script) (err : ErrV) (sc : Script) :
+    fallbackStep s ctx runSc err (some sc) =
+      if s.1.cfg.fbDisabled then (s, .ret (some err))
+      else if s.1.cfg.fbMaxConc ≥ 0 ∧ s.1.concFb + 1 > s.1.cfg.fbMaxConc then
+        (cmid_fbReject ({ s.1 with concFb := s.1.concFb + 1 }, s.2), .ret (some .concLimit))
+      else cmid_fbBody ({ s.1 with concFb := s.1.concFb + 1 }, s.2) s.2.runSeen.isSome ctx runSc err sc := by
+  rfl
+
+theorem cmid_setTo_fbBody (t' : Int) (s : St σo σc) (seen : Bool) (ctx : CallerCtx) (runSc : Option Script)
+    (err : ErrV) (sc : Script) :
+    cmid_fbBody (cmid_setTo t' s) seen ctx runSc err sc =
+      (cmid_setTo t' (cmid_fbBody s seen ctx runSc err sc).1, (cmid_fbBody s seen ctx runSc err sc).2) := by
+  unfold cmid_fbBody
+  cases hact : sc.act
+  · dsimp only
+    generalize actValue sc _ = r
+    cases r <;> rfl
+  · dsimp only
+    generalize actValue sc _ = r
+    cases r <;> rfl
+  · rfl
+
+theorem cmid_setTo_fallbackStep (t' : Int) (s : St σo σc) (ctx : CallerCtx) (runSc : Option Script) (err : ErrV)
+    (fb : Option Script) :
+    fallbackStep (cmid_setTo t' s) ctx runSc err fb =
+      (cmid_setTo t' (fallbackStep s ctx runSc err fb).1, (fallbackStep s ctx runSc err fb).2) := by
+  cases fb with
+  | none => rfl
+  | some sc =>
+    rw [cmid_fallbackStep_some, cmid_fallbackStep_some]
+    show (if s.1.cfg.fbDisabled = true then _ else _) = _
+    split
+    · rfl
+    · show (if s.1.cfg.fbMaxConc ≥ 0 ∧ s.1.concFb + 1 > s.1.cfg.fbMaxConc then _ else _) = _
+      split
+      · rfl
+      · exact cmid_setTo_fbBody t' ({ s.1 with concFb := s.1.concFb + 1 }, s.2) s.2.runSeen.isSome ctx runSc err sc
+
+/-! ### the run in stages -/
+
+/-- the state in which the run function returns, given the state `s` in which it is invoked (slot taken) -/
+def cmid_invoke (s : St σo σc) (ctx : CallerCtx) (sc : Script) (start : Int) (mid : Option LiveCfg) : St σo σc :=
+  ({ s.1 with clock := s.1.clock + sc.adv, cfg := mid.getD s.1.cfg },
+   { s.2 with runSeen := some (derivedSeen s.1.cfg ctx start) })
+
+/-- giving the slot back and releasing the derived context -/
+def cmid_finish (s : St σo σc) (derived : Bool) : St σo σc :=
+  ({ s.1 with conc := s.1.conc - 1 }, { s.2 with released := if derived then some true else none })
+
+/-- the run once let in and not throttled -/
+def cmid_runBody (s : St σo σc) (ctx : CallerCtx) (sc : Script) (start : Int) (mid : Option LiveCfg) :
+    St σo σc × Res :=
+  let derived := !(derivedSeen s.1.cfg ctx start).sameAsCaller
+  match sc.act with
+  | .panic v => (cmid_finish (cmid_invoke s ctx sc start mid) derived, .panic v)
+  | _ =>
+    (cmid_finish (classifyAt O C (cmid_invoke s ctx sc start mid) ctx sc (actValue sc (ctxErrAfter ctx sc)) start
+        s.1.cfg.timeout) derived,
+      .ret (actValue sc (ctxErrAfter ctx sc)))
+
+/-- the run refused for concurrency -/
+def cmid_runReject (s : St σo σc) (start : Int) : St σo σc :=
+  let s2 := emitRun O C s .reject start 0
+  ({ s2.1 with conc := s2.1.conc - 1 }, s2.2)
+
+theorem cmid_runStepMid_some (s : St σo σc) (ctx : CallerCtx) (sc : Script) (mid : Option LiveCfg) :
+    runStepMid O C s ctx (some sc) mid =
+      (let start := s.1.clock
+       let p := allowNewRun C (now s).2 start
+       if !p.2 then (emitRun O C p.1 .shortCircuit start 0, .ret (some .circuitOpen))
+       else
+         let q := O.prevent p.1.1.opener start
+         if q.2 then (({ p.1.1 with opener := q.1 }, p.1.2), .ret (some .circuitOpen))
+         else
+           let s2 : St σo σc := ({ p.1.1 with opener := q.1, conc := p.1.1.conc + 1 }, p.1.2)
+           if s2.1.cfg.maxConc ≥ 0 ∧ s2.1.conc > s2.1.cfg.maxConc then
+             (cmid_runReject O C s2 start, .ret (some .concLimit))
+           else cmid_runBody O C s2 ctx sc start mid) := by
+  rfl
+
+/-- the tail of Execute after `run` returned -/
+def cmid_execTail (p : St σo σc × Res) (ctx : CallerCtx) (run fb : Option Script) : Circ σo σc × Obs × Res :=
+  match p.2 with
+  | .ret none => (p.1.1, p.1.2, .ret none)
+  | .ret (some e) =>
+    if e.isBad then (p.1.1, p.1.2, .ret (some e))
+    else ((fallbackStep p.1 ctx run e fb).1.1, (fallbackStep p.1 ctx run e fb).1.2, (fallbackStep p.1 ctx run e fb).2)
+  | other => (p.1.1, p.1.2, other)
+
+theorem cmid_executeMid_enabled (c : Circ σo σc) (ctx : CallerCtx) (run fb : Option Script) (mid : Option LiveCfg)
+    (h : c.cfg.disabled = false) :
+    executeMid O C c ctx run fb mid = cmid_execTail (runStepMid O C (c, {}) ctx run mid) ctx run fb := by
+  unfold executeMid
+  rw [if_neg (by rw [h]; exact Bool.false_ne_true)]
+  rfl
+
+/-! ### a change of the timeout alone is invisible to the call in flight -/
+
+theorem cmid_allowNewRun_frame (s : St σo σc) (t : Int) :
+    (allowNewRun C s t).1.1.cfg = s.1.cfg ∧ (allowNewRun C s t).1.2 = s.2 := by
+  unfold allowNewRun
+  split
+  · exact ⟨rfl, rfl⟩
+  · split
+    · exact ⟨rfl, rfl⟩
+    · exact ⟨rfl, rfl⟩
+
+theorem cmid_runBody_timeout (s : St σo σc) (ctx : CallerCtx) (sc : Script) (start t' : Int) :
+    cmid_runBody O C s ctx sc start (some { s.1.cfg with timeout := t' }) =
+      (cmid_setTo t' (cmid_runBody O C s ctx sc start none).1, (cmid_runBody O C s ctx sc start none).2) := by
+  unfold cmid_runBody
+  have e : cmid_invoke s ctx sc start (some { s.1.cfg with timeout := t' }) =
+      cmid_setTo t' (cmid_invoke s ctx sc start none) := rfl
+  rw [e]
+  cases sc.act
+  · dsimp only
+    rw [cmid_setTo_classifyAt]
+    rfl
+  · dsimp only
+    rw [cmid_setTo_classifyAt]
+    rfl
+  · rfl
+
+theorem cmid_runStepMid_timeout (s : St σo σc) (ctx : CallerCtx) (run : Option Script) (t' : Int) :
+    (runStepMid O C s ctx run (some { s.1.cfg with timeout := t' })).2 = (runStep O C s ctx run).2 ∧
+    ((runStepMid O C s ctx run (some { s.1.cfg with timeout := t' })).1 = (runStep O C s ctx run).1 ∨
+     (runStepMid O C s ctx run (some { s.1.cfg with timeout := t' })).1 = cmid_setTo t' (runStep O C s ctx run).1) := by
+  rw [← cmid_runStepMid_none]
+  cases run with
+  | none => exact ⟨rfl, Or.inl rfl⟩
+  | some sc =>
+    rw [cmid_runStepMid_some, cmid_runStepMid_some]
+    dsimp only
+    split
+    · exact ⟨rfl, Or.inl rfl⟩
+    · split
+      · exact ⟨rfl, Or.inl rfl⟩
+      · split
+        · exact ⟨rfl, Or.inl rfl⟩
+        · have hc : (allowNewRun C (now s).2 s.1.clock).1.1.cfg = s.1.cfg :=
+            (cmid_allowNewRun_frame C (now s).2 s.1.clock).1
+          have key : ∀ s2 : St σo σc, s2.1.cfg = s.1.cfg →
+              (cmid_runBody O C s2 ctx sc s.1.clock (some { s.1.cfg with timeout := t' })).2 =
+                (cmid_runBody O C s2 ctx sc s.1.clock none).2 ∧
+              ((cmid_runBody O C s2 ctx sc s.1.clock (some { s.1.cfg with timeout := t' })).1 =
+                (cmid_runBody O C s2 ctx sc s.1.clock none).1 ∨
+               (cmid_runBody O C s2 ctx sc s.1.clock (some { s.1.cfg with timeout := t' })).1 =
+                cmid_setTo t' (cmid_runBody O C s2 ctx sc s.1.clock none).1) := by
+            intro s2 h
+            rw [← h, cmid_runBody_timeout]
+            exact ⟨rfl, Or.inr rfl⟩
+          exact key _ hc
+
+theorem cmid_execute_enabled (c : Circ σo σc) (ctx : CallerCtx) (run fb : Option Script) (h : c.cfg.disabled = false) :
+    execute O C c ctx run fb = cmid_execTail (runStep O C (c, {}) ctx run) ctx run fb := by
+  rw [← cmid_executeMid_none, cmid_executeMid_enabled O C c ctx run fb none h, cmid_runStepMid_none]
+
+theorem cmid_setTo_execTail (t' : Int) (s : St σo σc) (r : Res) (ctx : CallerCtx) (run fb : Option Script) :
+    cmid_execTail (cmid_setTo t' s, r) ctx run fb =
+      ((cmid_setTo t' ((cmid_execTail (s, r) ctx run fb).1, (cmid_execTail (s, r) ctx run fb).2.1)).1,
+        (cmid_execTail (s, r) ctx run fb).2.1, (cmid_execTail (s, r) ctx run fb).2.2) := by
+  unfold cmid_execTail
+  cases r with
+  | ret e =>
+    cases e with
+    | none => rfl
+    | some e =>
+      dsimp only
+      split
+      · rfl
+      · rw [cmid_setTo_fallbackStep]
+        rfl
+  | panic v => rfl
+  | nilFunc => rfl
+
+theorem cmid_timeout_invisible (c : Circ σo σc) (ctx : CallerCtx) (run fb : Option Script) (t' : Int) :
+    (executeMid O C c ctx run fb (some { c.cfg with timeout := t' })).2 = (execute O C c ctx run fb).2 ∧
+    ((executeMid O C c ctx run fb (some { c.cfg with timeout := t' })).1 = (execute O C c ctx run fb).1 ∨
+     (executeMid O C c ctx run fb (some { c.cfg with timeout := t' })).1 =
+       { (execute O C c ctx run fb).1 with cfg := { (execute O C c ctx run fb).1.cfg with timeout := t' } }) := by
+  cases h : c.cfg.disabled
+  · rw [cmid_executeMid_enabled O C c ctx run fb _ h, cmid_execute_enabled O C c ctx run fb h]
+    have h12 : (runStepMid O C (c, {}) ctx run (some { c.cfg with timeout := t' })).2 = (runStep O C (c, {}) ctx run).2 ∧
+        ((runStepMid O C (c, {}) ctx run (some { c.cfg with timeout := t' })).1 = (runStep O C (c, {}) ctx run).1 ∨
+         (runStepMid O C (c, {}) ctx run (some { c.cfg with timeout := t' })).1 =
+           cmid_setTo t' (runStep O C (c, {}) ctx run).1) :=
+      cmid_runStepMid_timeout O C (c, {}) ctx run t'
+    generalize runStepMid O C (c, {}) ctx run (some { c.cfg with timeout := t' }) = x at h12 ⊢
+    generalize runStep O C (c, {}) ctx run = y at h12 ⊢
+    obtain ⟨xs, xr⟩ := x
+    obtain ⟨ys, yr⟩ := y
+    obtain ⟨h2, h1⟩ := h12
+    dsimp only at h1 h2
+    subst h2
+    rcases h1 with h1 | h1
+    · subst h1
+      exact ⟨rfl, Or.inl rfl⟩
+    · subst h1
+      rw [cmid_setTo_execTail]
+      exact ⟨rfl, Or.inr rfl⟩
+  · unfold executeMid execute
+    rw [if_pos h, if_pos h]
+    cases run with
+    | none => exact ⟨rfl, Or.inl rfl⟩
+    | some sc =>
+      dsimp only
+      cases sc.act <;> exact ⟨rfl, Or.inr rfl⟩
+
+/-! ### what nothing but the invocation itself changes -/
+
+/-- `s'` has the settings and the run observation of `s`; under ForceOpen it has no new Closed notification, under
+    ForcedClosed no new Opened notification -/
+def cmid_Fr (s s' : St σo σc) : Prop :=
+  s'.1.cfg = s.1.cfg ∧ s'.2.runSeen = s.2.runSeen ∧
+  (s.1.cfg.forceOpen = true → ∀ t, Emit.closed t ∈ s'.2.emits → Emit.closed t ∈ s.2.emits) ∧
+  (s.1.cfg.forcedClosed = true → ∀ t, Emit.opened t ∈ s'.2.emits → Emit.opened t ∈ s.2.emits)
+
+theorem cmid_Fr_refl (s : St σo σc) : cmid_Fr s s := ⟨rfl, rfl, fun _ _ h => h, fun _ _ h => h⟩
+
+theorem cmid_Fr_trans {s s' s'' : St σo σc} (h : cmid_Fr s s') (h' : cmid_Fr s' s'') : cmid_Fr s s'' := by
+  obtain ⟨a, b, c, d⟩ := h
+  obtain ⟨a', b', c', d'⟩ := h'
+  refine ⟨a'.trans a, b'.trans b, fun hf t ht => c hf t (c' (by rw [a]; exact hf) t ht),
+    fun hf t ht => d hf t (d' (by rw [a]; exact hf) t ht)⟩
+
+theorem cmid_Fr_of_eq {s s' : St σo σc} (h1 : s'.1.cfg = s.1.cfg) (h2 : s'.2.runSeen = s.2.runSeen)
+    (h3 : s'.2.emits = s.2.emits) : cmid_Fr s s' :=
+  ⟨h1, h2, fun _ _ h => h3 ▸ h, fun _ _ h => h3 ▸ h⟩
+
+theorem cmid_Fr_now (s : St σo σc) : cmid_Fr s (now s).2 := cmid_Fr_of_eq rfl rfl rfl
+
+theorem cmid_Fr_emitRun (s : St σo σc) (k : Kind) (t d : Int) : cmid_Fr s (emitRun O C s k t d) := by
+  refine ⟨rfl, rfl, fun _ t' h => ?_, fun _ t' h => ?_⟩
+  · have h' : Emit.closed t' ∈ s.2.emits ++ [Emit.run k t d] := h
+    simpa using h'
+  · have h' : Emit.opened t' ∈ s.2.emits ++ [Emit.run k t d] := h
+    simpa using h'
+
+theorem cmid_Fr_emitFb (s : St σo σc) (k : FbKind) (t d : Int) : cmid_Fr s (emitFb s k t d) := by
+  refine ⟨rfl, rfl, fun _ t' h => ?_, fun _ t' h => ?_⟩
+  · have h' : Emit.closed t' ∈ s.2.emits ++ [Emit.fb k t d] := h
+    simpa using h'
+  · have h' : Emit.opened t' ∈ s.2.emits ++ [Emit.fb k t d] := h
+    simpa using h'
+
+theorem cmid_Fr_openCircuit (s : St σo σc) (t : Int) : cmid_Fr s (openCircuit O C s t) := by
+  unfold openCircuit
+  split
+  · exact cmid_Fr_refl s
+  · rename_i hfc
+    split
+    · exact cmid_Fr_refl s
+    · refine ⟨rfl, rfl, fun _ t' h => ?_, fun hf => absurd hf hfc⟩
+      have h' : Emit.closed t' ∈ s.2.emits ++ [Emit.opened t] := h
+      simpa using h'
+
+theorem cmid_Fr_attemptToOpen (s : St σo σc) (t : Int) : cmid_Fr s (attemptToOpen O C s t) := by
+  unfold attemptToOpen
+  split
+  · exact cmid_Fr_refl s
+  · split
+    · exact cmid_Fr_refl s
+    · generalize O.shouldOpen s.1.opener t = p
+      obtain ⟨o, ans⟩ := p
+      cases ans
+      · exact cmid_Fr_of_eq rfl rfl rfl
+      · exact cmid_Fr_trans (s' := ({ s.1 with opener := o }, s.2)) (cmid_Fr_of_eq rfl rfl rfl)
+          (cmid_Fr_openCircuit O C ({ s.1 with opener := o }, s.2) t)
+
+theorem cmid_Fr_closeCircuit (s : St σo σc) (t : Int) (force : Bool) : cmid_Fr s (closeCircuit O C s t force) := by
+  unfold closeCircuit
+  split
+  · exact cmid_Fr_refl s
+  · split
+    · exact cmid_Fr_refl s
+    · rename_i hfo
+      have key : ∀ c : σc, cmid_Fr s
+          ({ s.1 with closer := C.onClosed c t, opener := O.onClosed s.1.opener t, isOpen := false },
+            { s.2 with emits := s.2.emits ++ [.closed t] }) := by
+        intro c
+        refine ⟨rfl, rfl, fun hf => absurd hf hfo, fun _ t' h => ?_⟩
+        have h' : Emit.opened t' ∈ s.2.emits ++ [Emit.closed t] := h
+        simpa using h'
+      cases force
+      · generalize C.shouldClose s.1.closer t = p
+        obtain ⟨c, a⟩ := p
+        cases a
+        · exact cmid_Fr_of_eq rfl rfl rfl
+        · exact key c
+      · exact key s.1.closer
+
+theorem cmid_Fr_ite (b : Prop) [Decidable b] (s x y : St σo σc) (hx : cmid_Fr s x) (hy : cmid_Fr s y) :
+    cmid_Fr s (if b then x else y) := by
+  split
+  · exact hx
+  · exact hy
+
+theorem cmid_Fr_tail (s : St σo σc) (ctx : CallerCtx) (sc : Script) (ret : Option ErrV)
+    (start toAtStart doneT total : Int) : cmid_Fr s (cmid_tail O C s ctx sc ret start toAtStart doneT total) := by
+  have ha : ∀ k, cmid_Fr s (if (!isOpenEff (emitRun O C s k doneT total).1) = true
+      then attemptToOpen O C (emitRun O C s k doneT total) doneT else emitRun O C s k doneT total) := fun k =>
+    cmid_Fr_ite _ _ _ _ (cmid_Fr_trans (cmid_Fr_emitRun O C s k doneT total) (cmid_Fr_attemptToOpen O C _ doneT))
+      (cmid_Fr_emitRun O C s k doneT total)
+  unfold cmid_tail
+  apply cmid_Fr_ite
+  · exact cmid_Fr_emitRun O C s _ doneT total
+  apply cmid_Fr_ite
+  · exact ha _
+  apply cmid_Fr_ite
+  · exact cmid_Fr_emitRun O C s _ doneT total
+  apply cmid_Fr_ite
+  · exact ha _
+  apply cmid_Fr_ite
+  · exact cmid_Fr_trans (cmid_Fr_emitRun O C s _ doneT total) (cmid_Fr_closeCircuit O C _ doneT false)
+  · exact cmid_Fr_emitRun O C s _ doneT total
+
+theorem cmid_Fr_classifyAt (s : St σo σc) (ctx : CallerCtx) (sc : Script) (ret : Option ErrV) (start toAtStart : Int) :
+    cmid_Fr s (classifyAt O C s ctx sc ret start toAtStart) := by
+  rw [cmid_classifyAt_tail]
+  exact cmid_Fr_trans (s' := (now (now s).2).2) (cmid_Fr_of_eq rfl rfl rfl) (cmid_Fr_tail O C _ ctx sc ret start toAtStart _ _)
+
+theorem cmid_Fr_fbReject (s : St σo σc) : cmid_Fr s (cmid_fbReject s) := by
+  unfold cmid_fbReject
+  exact cmid_Fr_trans (s' := (now s).2) (cmid_Fr_now s)
+    (cmid_Fr_trans (cmid_Fr_emitFb (now s).2 .reject (now s).1 0) (cmid_Fr_of_eq rfl rfl rfl))
+
+theorem cmid_Fr_fbBody (s : St σo σc) (seen : Bool) (ctx : CallerCtx) (runSc : Option Script) (err : ErrV)
+    (sc : Script) : cmid_Fr s (cmid_fbBody s seen ctx runSc err sc).1 := by
+  unfold cmid_fbBody
+  cases hact : sc.act
+  · dsimp only
+    generalize actValue sc _ = r
+    cases r
+    · exact cmid_Fr_trans (cmid_Fr_trans (cmid_Fr_of_eq rfl rfl rfl) (cmid_Fr_emitFb _ .success _ _)) (cmid_Fr_of_eq rfl rfl rfl)
+    · exact cmid_Fr_trans (cmid_Fr_trans (cmid_Fr_of_eq rfl rfl rfl) (cmid_Fr_emitFb _ .failure _ _)) (cmid_Fr_of_eq rfl rfl rfl)
+  · dsimp only
+    generalize actValue sc _ = r
+    cases r
+    · exact cmid_Fr_trans (cmid_Fr_trans (cmid_Fr_of_eq rfl rfl rfl) (cmid_Fr_emitFb _ .success _ _)) (cmid_Fr_of_eq rfl rfl rfl)
+    · exact cmid_Fr_trans (cmid_Fr_trans (cmid_Fr_of_eq rfl rfl rfl) (cmid_Fr_emitFb _ .failure _ _)) (cmid_Fr_of_eq rfl rfl rfl)
+  · exact cmid_Fr_of_eq rfl rfl rfl
+
+theorem cmid_Fr_fallbackStep (s : St σo σc) (ctx : CallerCtx) (runSc : Option Script) (err : ErrV)
+    (fb : Option Script) : cmid_Fr s (fallbackStep s ctx runSc err fb).1 := by
+  cases fb with
+  | none => exact cmid_Fr_refl s
+  | some sc =>
+    rw [cmid_fallbackStep_some]
+    split
+    · exact cmid_Fr_refl s
+    · split
+      · exact cmid_Fr_trans (s' := ({ s.1 with concFb := s.1.concFb + 1 }, s.2)) (cmid_Fr_of_eq rfl rfl rfl)
+          (cmid_Fr_fbReject _)
+      · exact cmid_Fr_trans (s' := ({ s.1 with concFb := s.1.concFb + 1 }, s.2)) (cmid_Fr_of_eq rfl rfl rfl)
+          (cmid_Fr_fbBody _ _ ctx runSc err sc)
+
+
+/-! ### the two paths of a call: the function ran, or it did not -/
+
+/-- the run function was not invoked between `s` and `r` -/
+def cmid_NotRan (s r : St σo σc) : Prop := r.2.runSeen = none ∧ r.1.cfg = s.1.cfg
+
+/-- the run function was invoked between `s` and `r`, no event before it, the settings replaced by `m` -/
+def cmid_Ran (m : LiveCfg) (s r : St σo σc) : Prop :=
+  ∃ X : St σo σc, X.1.cfg = m ∧ X.2.runSeen.isSome = true ∧ X.2.emits = s.2.emits ∧ cmid_Fr X r
+
+theorem cmid_NotRan_Fr {s r r' : St σo σc} (h : cmid_NotRan s r) (f : cmid_Fr r r') : cmid_NotRan s r' :=
+  ⟨f.2.1.trans h.1, f.1.trans h.2⟩
+
+theorem cmid_Ran_Fr {m : LiveCfg} {s r r' : St σo σc} (h : cmid_Ran m s r) (f : cmid_Fr r r') : cmid_Ran m s r' := by
+  obtain ⟨X, a, b, c, d⟩ := h
+  exact ⟨X, a, b, c, cmid_Fr_trans d f⟩
+
+theorem cmid_runBody_Ran (s : St σo σc) (ctx : CallerCtx) (sc : Script) (start : Int) (m : LiveCfg) :
+    cmid_Ran m s (cmid_runBody O C s ctx sc start (some m)).1 := by
+  unfold cmid_runBody
+  cases sc.act
+  · exact ⟨cmid_invoke s ctx sc start (some m), rfl, rfl, rfl,
+      cmid_Fr_trans (cmid_Fr_classifyAt O C _ ctx sc _ start _) (cmid_Fr_of_eq rfl rfl rfl)⟩
+  · exact ⟨cmid_invoke s ctx sc start (some m), rfl, rfl, rfl,
+      cmid_Fr_trans (cmid_Fr_classifyAt O C _ ctx sc _ start _) (cmid_Fr_of_eq rfl rfl rfl)⟩
+  · exact ⟨cmid_invoke s ctx sc start (some m), rfl, rfl, rfl, cmid_Fr_of_eq rfl rfl rfl⟩
+
+theorem cmid_runStepMid_cases (s : St σo σc) (ctx : CallerCtx) (run : Option Script) (m : LiveCfg)
+    (hs : s.2.runSeen = none) :
+    cmid_NotRan s (runStepMid O C s ctx run (some m)).1 ∨ cmid_Ran m s (runStepMid O C s ctx run (some m)).1 := by
+  cases run with
+  | none => exact Or.inl ⟨hs, rfl⟩
+  | some sc =>
+    rw [cmid_runStepMid_some]
+    dsimp only
+    obtain ⟨hc, ho⟩ := cmid_allowNewRun_frame C (now s).2 s.1.clock
+    generalize allowNewRun C (now s).2 s.1.clock = p at hc ho ⊢
+    obtain ⟨⟨pc, po⟩, pa⟩ := p
+    dsimp only at hc ho ⊢
+    have hc' : pc.cfg = s.1.cfg := hc
+    have hr : po.runSeen = none := by rw [ho]; exact hs
+    have he : po.emits = s.2.emits := by rw [ho]; rfl
+    split
+    · exact Or.inl ⟨hr, hc'⟩
+    · split
+      · exact Or.inl ⟨hr, hc'⟩
+      · split
+        · exact Or.inl ⟨hr, hc'⟩
+        · right
+          obtain ⟨X, a, b, c, d⟩ := cmid_runBody_Ran O C
+            (({ pc with opener := (O.prevent pc.opener s.1.clock).1, conc := pc.conc + 1 }, po) : St σo σc)
+            ctx sc s.1.clock m
+          exact ⟨X, a, b, c.trans he, d⟩
+
+theorem cmid_execTail_Fr (p : St σo σc × Res) (ctx : CallerCtx) (run fb : Option Script) :
+    cmid_Fr p.1 ((cmid_execTail p ctx run fb).1, (cmid_execTail p ctx run fb).2.1) := by
+  obtain ⟨s, r⟩ := p
+  unfold cmid_execTail
+  cases r with
+  | ret e =>
+    cases e with
+    | none => exact cmid_Fr_refl s
+    | some e =>
+      dsimp only
+      split
+      · exact cmid_Fr_refl s
+      · exact cmid_Fr_fallbackStep s ctx run e fb
+  | panic v => exact cmid_Fr_refl s
+  | nilFunc => exact cmid_Fr_refl s
+
+theorem cmid_executeMid_cases (c : Circ σo σc) (ctx : CallerCtx) (run fb : Option Script) (m : LiveCfg)
+    (hen : c.cfg.disabled = false) :
+    cmid_NotRan ((c, {}) : St σo σc)
+        ((executeMid O C c ctx run fb (some m)).1, (executeMid O C c ctx run fb (some m)).2.1) ∨
+      cmid_Ran m ((c, {}) : St σo σc)
+        ((executeMid O C c ctx run fb (some m)).1, (executeMid O C c ctx run fb (some m)).2.1) := by
+  rw [cmid_executeMid_enabled O C c ctx run fb _ hen]
+  have f := cmid_execTail_Fr (runStepMid O C (c, {}) ctx run (some m)) ctx run fb
+  rcases cmid_runStepMid_cases O C ((c, {}) : St σo σc) ctx run m rfl with h | h
+  · exact Or.inl (cmid_NotRan_Fr h f)
+  · exact Or.inr (cmid_Ran_Fr h f)
+
+theorem cmid_forceOpen_never_closes (c : Circ σo σc) (ctx : CallerCtx) (run fb : Option Script) (m : LiveCfg)
+    (hen : c.cfg.disabled = false) (hfo : m.forceOpen = true)
+    (hseen : (executeMid O C c ctx run fb (some m)).2.1.runSeen.isSome = true) (t : Int) :
+    Emit.closed t ∉ (executeMid O C c ctx run fb (some m)).2.1.emits := by
+  rcases cmid_executeMid_cases O C c ctx run fb m hen with h | h
+  · have h1 : (executeMid O C c ctx run fb (some m)).2.1.runSeen = none := h.1
+    rw [h1] at hseen
+    exact absurd hseen (by decide)
+  · obtain ⟨X, a, _, e, f⟩ := h
+    intro hmem
+    have := f.2.2.1 (by rw [a]; exact hfo) t hmem
+    rw [e] at this
+    exact absurd this (by simp)
+
+theorem cmid_forcedClosed_never_opens (c : Circ σo σc) (ctx : CallerCtx) (run fb : Option Script) (m : LiveCfg)
+    (hen : c.cfg.disabled = false) (hfc : m.forcedClosed = true)
+    (hseen : (executeMid O C c ctx run fb (some m)).2.1.runSeen.isSome = true) (t : Int) :
+    Emit.opened t ∉ (executeMid O C c ctx run fb (some m)).2.1.emits := by
+  rcases cmid_executeMid_cases O C c ctx run fb m hen with h | h
+  · have h1 : (executeMid O C c ctx run fb (some m)).2.1.runSeen = none := h.1
+    rw [h1] at hseen
+    exact absurd hseen (by decide)
+  · obtain ⟨X, a, _, e, f⟩ := h
+    intro hmem
+    have := f.2.2.2 (by rw [a]; exact hfc) t hmem
+    rw [e] at this
+    exact absurd this (by simp)
+
+theorem cmid_settings_take_effect (c : Circ σo σc) (ctx : CallerCtx) (run fb : Option Script) (m : LiveCfg)
+    (hen : c.cfg.disabled = false) :
+    (executeMid O C c ctx run fb (some m)).1.cfg =
+      (if (executeMid O C c ctx run fb (some m)).2.1.runSeen.isSome then m else c.cfg) := by
+  rcases cmid_executeMid_cases O C c ctx run fb m hen with h | h
+  · have h1 : (executeMid O C c ctx run fb (some m)).2.1.runSeen = none := h.1
+    rw [h1]
+    exact h.2
+  · obtain ⟨X, a, b, _, f⟩ := h
+    have h1 : (executeMid O C c ctx run fb (some m)).2.1.runSeen = X.2.runSeen := f.2.1
+    rw [h1, b, if_pos rfl]
+    exact f.1.trans a
+
+
+end
 end CM
